@@ -73,6 +73,15 @@ inductive RetKind where
   | always
   /-- `RimeSyncUserData` returns it -/
   | result
+  /-- `UserDictionary::Load` discards it and returns false -/
+  | never
+  deriving DecidableEq, Repr
+
+/-- which API function a return value belongs to -/
+inductive OpKind where
+  | maint | maintNoChange | sync | recover | isMaint | join | create | find | ctx | setHandler
+  | maintQuick | maintNoInst | runTask | runUnknown | deployWs | deploySchema | deployConfig | prebuild
+  | startDirect | destroy | cleanupAll | cleanupStale | finalize | initialize | clearHandler | tick
   deriving DecidableEq, Repr
 
 /-- client API calls (the script alphabet) -/
@@ -84,8 +93,9 @@ inductive Op where
   | maintNoChange
   /-- `RimeSyncUserData`: `CleanupAllSessions`, `ScheduleTask` × |os|, `return StartMaintenance()` -/
   | sync (os : List Bool)
-  /-- `UserDictionary::Load` recovery path (user_dictionary.cc):
-  `if (!deployer.IsWorking()) { ScheduleTask(t); StartWork(/*maintenance_mode=*/false); }` -/
+  /-- `UserDictionary::Load` on a recoverable db that does not open (user_dictionary.cc):
+  `if (task && Is<Recoverable>(db_) && !deployer.IsWorking()) { ScheduleTask(t); StartWork(/*maintenance_mode=*/false); }
+  return false;` -/
   | recover (o : Bool)
   /-- `RimeIsMaintenancing` -/
   | isMaint
@@ -99,11 +109,36 @@ inductive Op where
   | ctx
   /-- `RimeSetNotificationHandler(h, …)` re-installing the recording handler -/
   | setHandler
-  deriving DecidableEq, Repr
-
-/-- which API function a return value belongs to -/
-inductive OpKind where
-  | maint | maintNoChange | sync | recover | isMaint | join | create | find | ctx | setHandler
+  /-- `RimeStartMaintenance(False)` when `detect_modifications` reports a change: the same schedule
+  and `StartMaintenance()` as with `full_check`, returns True -/
+  | maintQuick (os : List Bool)
+  /-- `RimeStartMaintenance(·)` when the synchronous `installation_update` fails: returns False,
+  nothing is scheduled -/
+  | maintNoInst
+  /-- an API call that runs deployment tasks synchronously on the CLIENT thread through
+  `Deployer::RunTask` (never through the queue): `RimeRunTask`, `RimeDeployWorkspace` (four tasks
+  joined by `&&`), `RimeDeploySchema`, `RimeDeployConfigFile`, `RimePrebuildAllSchemas`, and
+  `RimeRunTask` of a name no component is registered for (`os = [false]`).  `os` = outcomes of the
+  tasks in order; the call reports their conjunction -/
+  | runSync (k : OpKind) (os : List Bool)
+  /-- `Deployer::StartMaintenance()` (`mode = true`) / `Deployer::StartWork(false)` called directly:
+  nothing is scheduled by the call itself, so the queue may be empty -/
+  | startDirect (mode : Bool)
+  /-- `RimeDestroySession(id)` on the most recently created live session (not guarded by `disabled()`) -/
+  | destroy
+  /-- `RimeCleanupAllSessions()` (not guarded) -/
+  | cleanupAll
+  /-- `RimeCleanupStaleSessions()`: erases the sessions idle for more than `Session::kLifeSpan` (not guarded) -/
+  | cleanupStale
+  /-- `n` seconds pass on the clock `time(NULL)` that `Session::Activate` and `CleanupStaleSessions` read -/
+  | tick (n : Nat)
+  /-- `RimeFinalize()`: `JoinMaintenanceThread()` (blocks), `StopService()` (`started_ = false`,
+  `CleanupAllSessions()`), registry and modules unloaded -/
+  | finalize
+  /-- `RimeInitialize(traits)`: `StartService()` (`started_ = true`) -/
+  | initialize
+  /-- `RimeSetNotificationHandler(NULL, …)` = `Service::ClearNotificationHandler()` -/
+  | clearHandler
   deriving DecidableEq, Repr
 
 /-- where the client thread is parked -/
@@ -125,14 +160,16 @@ inductive CPc where
 /-- observable events, in real-time order (the harness serialises the threads) -/
 inductive Ev where
   /-- an API call returned; `v` : 1/0 for Bool results (create: 1 = a session id, 0 = refused),
-  2 = void, 3 = recover skipped because a worker was running -/
+  2 = void -/
   | ret (k : OpKind) (v : Nat)
   /-- `ScheduleTask` pushed `t` -/
   | sched (t : Task)
   /-- the worker executed `t` -/
   | run (t : Task)
-  /-- the handler received ("deploy", n) -/
-  | note (n : Note)
+  /-- `Service::Notify(0, "deploy", n)` was called by the work thread; `heard`: a handler was
+  installed and received it (an unheard notification is a ghost event, not part of the observable
+  trace) -/
+  | note (n : Note) (heard : Bool)
   /-- `Run()` returned and the future became ready -/
   | done
   deriving DecidableEq, Repr
@@ -148,10 +185,19 @@ structure State where
   flag : Bool
   /-- `working_` (guarded by `mutex_`) -/
   wflag : Bool
+  /-- ghost: the `maintenance_mode` argument of the `StartWork` call that launched the current
+  (or last) work thread -/
+  wmode : Bool
   /-- number of tasks created so far (next fresh id) -/
   nextId : Nat
-  /-- number of live sessions (`sessions_.size()`) -/
-  live : Nat
+  /-- the live sessions (`sessions_`), most recently created first; each with the seconds elapsed
+  since its `last_active_time_` (set by `Session::Activate()` in `CreateSession` and in every
+  accepted `GetSession`) -/
+  sessions : List Nat
+  /-- `Service::started_` -/
+  started : Bool
+  /-- `Service::notification_handler_` is non-empty -/
+  handler : Bool
   /-- event log -/
   log : List Ev
   deriving DecidableEq, Repr
@@ -161,8 +207,8 @@ inductive Tid where
   deriving DecidableEq, Repr
 
 def init (script : List Op) : State :=
-  { script := script, cpc := .boundary, queue := [], worker := .idle, flag := false, wflag := false,
-    nextId := 0, live := 0, log := [] }
+  { script := script, cpc := .boundary, queue := [], worker := .idle, flag := false, wflag := false, wmode := false,
+    nextId := 0, sessions := [], started := true, handler := true, log := [] }
 
 /-! ### derived notions -/
 
@@ -173,28 +219,51 @@ def Worker.working : Worker → Bool
 
 def State.working (s : State) : Bool := s.worker.working
 
-/-- `Deployer::IsMaintenanceMode()` = `maintenance_mode_ && IsWorking()`;
-`Service::disabled()` = `!started_ || IsMaintenanceMode()` with the service started -/
+/-- number of live sessions (`sessions_.size()`) -/
+def State.live (s : State) : Nat := s.sessions.length
+
+/-- `Session::kLifeSpan` (seconds): `CleanupStaleSessions` erases a session iff
+`last_active_time() < now - kLifeSpan` -/
+def lifeSpan : Nat := 300
+
+/-- `Deployer::IsMaintenanceMode()` = `maintenance_mode_ && IsWorking()` -/
 def State.maintMode (s : State) : Bool := s.flag && s.working
+
+/-- `Service::disabled()` = `!started_ || deployer_.IsMaintenanceMode()` -/
+def State.disabled (s : State) : Bool := !s.started || s.maintMode
 
 def Ev.task? : Ev → Option Task
   | .run t => some t
   | .ret _ _ => none
   | .sched _ => none
-  | .note _ => none
+  | .note _ _ => none
   | .done => none
 def Ev.sched? : Ev → Option Task
   | .sched t => some t
   | .ret _ _ => none
   | .run _ => none
-  | .note _ => none
+  | .note _ _ => none
   | .done => none
 def Ev.note? : Ev → Option Note
-  | .note n => some n
+  | .note n heard => if heard then some n else none
   | .ret _ _ => none
   | .sched _ => none
   | .run _ => none
   | .done => none
+/-- notifications SENT by `Deployer::Run` (`message_sink_`), heard by a handler or not -/
+def Ev.sent? : Ev → Option Note
+  | .note n _ => some n
+  | .ret _ _ => none
+  | .sched _ => none
+  | .run _ => none
+  | .done => none
+/-- ghost events are not part of the observable trace -/
+def Ev.observable : Ev → Bool
+  | .note _ heard => heard
+  | .ret _ _ => true
+  | .sched _ => true
+  | .run _ => true
+  | .done => true
 
 /-- tasks executed, in order -/
 def State.ran (s : State) : List Task := s.log.filterMap Ev.task?
@@ -202,6 +271,11 @@ def State.ran (s : State) : List Task := s.log.filterMap Ev.task?
 def State.scheduled (s : State) : List Task := s.log.filterMap Ev.sched?
 /-- notification sequence seen by the handler -/
 def State.notes (s : State) : List Note := s.log.filterMap Ev.note?
+/-- notification sequence sent by the work threads (`Service::Notify` calls), heard or not -/
+def State.sent (s : State) : List Note := s.log.filterMap Ev.sent?
+
+/-- `Service::Notify(0, "deploy", n)`: the handler is called iff one is installed -/
+def State.noteEv (s : State) (n : Note) : Ev := .note n s.handler
 
 def State.emit (s : State) (e : Ev) : State := { s with log := s.log ++ [e] }
 
@@ -210,6 +284,7 @@ def retVal (rk : RetKind) (r : Bool) : Nat :=
   match rk with
   | .always => 1
   | .result => if r then 1 else 0
+  | .never => 0
 
 /-- the API call `k` returns: log it, client back at the boundary -/
 def State.finishOp (s : State) (k : OpKind) (v : Nat) : State :=
@@ -228,7 +303,7 @@ def workerStep (s : State) : Option State :=
   | .idle => none
   | .finished => none
   | .running .notifyStart f =>
-      some { s with worker := .running .next f, log := s.log ++ [.note .start] }
+      some { s with worker := .running .next f, log := s.log ++ [s.noteEv .start] }
   | .running .next f =>
       match s.queue with
       | [] => some { s with worker := .running .notifyResult f }
@@ -237,7 +312,7 @@ def workerStep (s : State) : Option State :=
       some { s with worker := .running .next (f || !t.ok), log := s.log ++ [.run t] }
   | .running .notifyResult f =>
       some { s with worker := .running .check f,
-                    log := s.log ++ [.note (if f then .failure else .success)] }
+                    log := s.log ++ [s.noteEv (if f then .failure else .success)] }
   | .running .check f =>
       -- FinishWork(): lock; if (!empty) return false; working_ = false; return true
       match s.queue with
@@ -248,13 +323,16 @@ def workerStep (s : State) : Option State :=
 
 /-! ### the client program: API calls decomposed at the parking points -/
 
-/-- a session operation (`CreateSession` / `GetSession`-based) issued in state `s`;
-returns the new number of live sessions and the reported value -/
-def sessionOp (s : State) (o : OpKind) : Nat × Nat :=
-  if s.maintMode then (s.live, 0)            -- `disabled()` : refused
+/-- a session operation (`CreateSession` / `GetSession`-based, the latter on the most recently
+created live session) issued in state `s`; returns the new sessions and the reported value.  A
+refused operation does not even refresh the session's activity stamp. -/
+def sessionOp (s : State) (o : OpKind) : List Nat × Nat :=
+  if s.disabled then (s.sessions, 0)         -- `disabled()` : refused
   else match o with
-    | .create => (s.live + 1, 1)
-    | _ => (s.live, if s.live = 0 then 0 else 1)
+    | .create => (0 :: s.sessions, 1)
+    | _ => match s.sessions with
+      | [] => ([], 0)
+      | _ :: r => (0 :: r, 1)                -- `session->Activate()`
 
 /-- first segment of an API call, from the boundary -/
 def beginOp (s : State) (op : Op) (rest : List Op) : Option State :=
@@ -262,18 +340,35 @@ def beginOp (s : State) (op : Op) (rest : List Op) : Option State :=
   match op with
   | .maint os => some { s with cpc := afterPush os true .maint .always }
   | .maintNoChange => some (s.finishOp .maintNoChange 0)
-  | .sync os => some { s with live := 0, cpc := afterPush os true .sync .result }
+  | .sync os => some { s with sessions := [], cpc := afterPush os true .sync .result }
   | .recover o =>
-      if s.working then some (s.finishOp .recover 3)
-      else some { s with cpc := .push [o] false .recover .result }
+      if s.working then some (s.finishOp .recover 0)
+      else some { s with cpc := .push [o] false .recover .never }
   | .isMaint => some (s.finishOp .isMaint (if s.maintMode then 1 else 0))
   | .join =>
       if s.working then none     -- `work_.get()` blocks
       else some ({ s with worker := .idle }.finishOp .join 2)
-  | .create => some ({ s with live := (sessionOp s .create).1 }.finishOp .create (sessionOp s .create).2)
-  | .find => some (s.finishOp .find (sessionOp s .find).2)
-  | .ctx => some (s.finishOp .ctx (sessionOp s .ctx).2)
-  | .setHandler => some (s.finishOp .setHandler 2)
+  | .create => some ({ s with sessions := (sessionOp s .create).1 }.finishOp .create (sessionOp s .create).2)
+  | .find => some ({ s with sessions := (sessionOp s .find).1 }.finishOp .find (sessionOp s .find).2)
+  | .ctx => some ({ s with sessions := (sessionOp s .ctx).1 }.finishOp .ctx (sessionOp s .ctx).2)
+  | .setHandler => some ({ s with handler := true }.finishOp .setHandler 2)
+  | .maintQuick os => some { s with cpc := afterPush os true .maintQuick .always }
+  | .maintNoInst => some (s.finishOp .maintNoInst 0)
+  | .runSync k os => some (s.finishOp k (if os.all id then 1 else 0))
+  | .startDirect mode => some { s with cpc := .swEnter mode .startDirect .result }
+  | .destroy =>
+      match s.sessions with
+      | [] => some (s.finishOp .destroy 0)
+      | _ :: r => some ({ s with sessions := r }.finishOp .destroy 1)
+  | .cleanupAll => some ({ s with sessions := [] }.finishOp .cleanupAll 2)
+  | .cleanupStale =>
+      some ({ s with sessions := s.sessions.filter (fun age => age ≤ lifeSpan) }.finishOp .cleanupStale 2)
+  | .tick n => some ({ s with sessions := s.sessions.map (· + n) }.finishOp .tick 2)
+  | .finalize =>
+      if s.working then none     -- `JoinMaintenanceThread()` blocks
+      else some ({ s with worker := .idle, started := false, sessions := [] }.finishOp .finalize 2)
+  | .initialize => some ({ s with started := true }.finishOp .initialize 2)
+  | .clearHandler => some ({ s with handler := false }.finishOp .clearHandler 2)
 
 def clientStep (s : State) : Option State :=
   match s.cpc with
@@ -296,7 +391,7 @@ def clientStep (s : State) : Option State :=
       if s.working then none
       else some { s with worker := .idle, cpc := .swLaunch k rk }
   | .swLaunch k rk =>
-      some ({ s with worker := .running .notifyStart false }.finishOp k (retVal rk true))
+      some ({ s with worker := .running .notifyStart false, wmode := s.flag }.finishOp k (retVal rk true))
 
 def step (s : State) : Tid → Option State
   | .client => clientStep s
@@ -346,6 +441,8 @@ def opCost : Op → Nat
   | .maint os => 12 + 6 * os.length
   | .sync os => 12 + 6 * os.length
   | .recover _ => 18
+  | .maintQuick os => 12 + 6 * os.length
+  | .startDirect _ => 12
   | _ => 2
 
 def fuelFor (script : List Op) : Nat := (script.map opCost).sum + 8
